@@ -256,22 +256,21 @@ def chunk_count_selection(ctx, rule, bindings=None):
                         elif vals == ['otherwise'] and 0 in explicit:
                             zero_test = False
                         continue
-                    if cond[0] == 'bin' and cond[1] in ('Eq', 'Ne') and q.const_val(cond[3]) in (0, 0xFFFF):
+                    if cond[0] == 'bin' and cond[1] in ('Eq', 'Ne') and q.const_val(cond[3]) == 0:
                         sub, _ = layout.unwrap_value(cond[2])
                         which = bindings.get(sub[3], ('', ''))[1] if layout.is_read_term(sub) else None
                         truth = q.bool_outcome(pf, a, vals)
                         if truth is None:
                             continue
                         eq = truth if cond[1] == 'Eq' else (not truth)
-                        if which == 'new_chunks' and q.const_val(cond[3]) == 0:
+                        # only the test on the new field is accepted: `old == 0xFFFF -> new, else old` is the file format's wording
+                        # but not the same function (old = 0, new = N reads no chunk at all; seed C07-g)
+                        if which == 'new_chunks':
                             zero_test = eq
-                        elif which == 'old_chunks' and q.const_val(cond[3]) == 0xFFFF:
-                            # the file format's own wording: the old field is authoritative unless it is 0xFFFF
-                            zero_test = not eq
                 got[nm] = (zero_test, [c_ for c_ in layout.casts_on(t)[0]] if t[0] == 'cast' else [])
             ok = set(got) == {'old_chunks', 'new_chunks'} and got['old_chunks'][0] is True and got['new_chunks'][0] is False and \
                 all(layout.value_preserving(a, b_) for a, b_ in got['old_chunks'][1])
-            ctx.inst(rule, 'chunk count', ok, 'chunk count = %s; must be old_chunks (zero-extended) when new_chunks == 0 (or old_chunks != 0xFFFF), else new_chunks'
+            ctx.inst(rule, 'chunk count', ok, 'chunk count = %s; must be old_chunks (zero-extended) when new_chunks == 0, else new_chunks'
                      % {k: ('when new==0' if v[0] else 'when new!=0' if v[0] is False else 'UNGUARDED') for k, v in got.items()}, c.span,
                      key=pf.name + '|' + rule)
 
